@@ -75,6 +75,25 @@ def real_spectrum(rng, n, kind):
     return rng.permutation(d)
 
 
+def structured_symmetric(rng, n):
+    """Real symmetric matrices with analytically known spectra and eigenvectors of exactly zero mean."""
+    kind = ["zero", "identity", "diagonal", "exchange", "laplace1d", "ones"][int(rng.integers(0, 6))]
+    if kind == "zero":
+        return np.zeros((n, n)), np.zeros(n)
+    if kind == "identity":
+        c = float(rng.uniform(-2, 2))
+        return c * np.eye(n), np.full(n, c)
+    if kind == "diagonal":
+        d = real_spectrum(rng, n, "simple")
+        return np.diag(d), d
+    if kind == "exchange":
+        return np.eye(n)[::-1].copy(), np.array([1.0] * ((n + 1) // 2) + [-1.0] * (n // 2))
+    if kind == "laplace1d":
+        T = 2 * np.eye(n) - np.eye(n, k=1) - np.eye(n, k=-1)
+        return T, 2 - 2 * np.cos(np.arange(1, n + 1) * np.pi / (n + 1))
+    return np.ones((n, n)), np.array([float(n)] + [0.0] * (n - 1))
+
+
 def complex_spectrum(rng, n, sep=0.3):
     r = 0.6 * np.sqrt(n) + 1.0
     pts = []
@@ -101,13 +120,26 @@ def dense_problem(rng, cls, n, bkind, spec="simple", sa=1.0, sb=1.0):
         cplxB = bkind == "hpd"
         condB = float(np.exp(rng.uniform(0, np.log(100.0))))
         B = None if bkind == "none" else posdef(rng, n, cplxB, condB)
-        if cls in ("sym", "herm"):
+        if cls == "sym" and cplxB:
+            # real symmetric A with complex Hermitian B: spectrum not prescribable, taken from the Cholesky-reduced
+            # standard problem (numpy eigh), eigenvectors likewise (needed for the isotropy screen only)
+            U = unitary(rng, n, False)
+            A = (U * real_spectrum(rng, n, "simple")) @ U.T
+            A = (A + A.T) / 2
+            L = np.linalg.cholesky(B)
+            Li = np.linalg.inv(L)
+            C = Li @ A @ Li.conj().T
+            lam, Y = np.linalg.eigh((C + C.conj().T) / 2)
+            X = Li.conj().T @ Y
+        elif cls in ("sym", "herm"):
             cplx = cls == "herm"
-            if cls == "sym" and cplxB:
-                raise ValueError("sym+hpd is not generated")
-            lam = real_spectrum(rng, n, spec)
-            U = unitary(rng, n, cplx)
-            C = (U * lam) @ U.conj().T
+            if spec == "structured":
+                C, lam = structured_symmetric(rng, n)
+                U = np.eye(n)
+            else:
+                lam = real_spectrum(rng, n, spec)
+                U = unitary(rng, n, cplx)
+                C = (U * lam) @ U.conj().T
             if B is None:
                 A, X = C, U
             else:
@@ -158,7 +190,7 @@ def dense_problem(rng, cls, n, bkind, spec="simple", sa=1.0, sb=1.0):
             raise ValueError(cls)
         # the documented bilinear normalisation must exist for every eigenvector (simple eigenvalues only)
         Bd = np.eye(n) if B is None else B
-        if spec != "multi":
+        if spec not in ("multi", "structured"):
             bil = np.abs(np.einsum("ij,ij->j", X, Bd @ X))
             ses = np.abs(np.einsum("ij,ij->j", X.conj(), Bd @ X))
             if np.min(bil / ses) < ISO_MIN:
@@ -402,18 +434,32 @@ def judge(A, B, W, Q, *, sparse, hermitian, realsym, sorter, rec, lam_ref, cond_
                           {"mode": i, "got": W[i], "assigned_reference": lam_ref[m][i],
                            "tolerance": float(tol_ref[m][i]), "sigma": sigma}))
         else:
+            # selection: no reference eigenvalue that was not returned may lie closer to the shift than the farthest
+            # returned one.  Exception (counted, not a violation): a further copy of a numerically multiple
+            # eigenvalue of which at least one copy was returned - a Krylov method started from one vector sees
+            # one vector per eigenspace in exact arithmetic, so how many copies ARPACK delivers is left to rounding.
             dref = np.abs(lam_ref - sigma)
-            order = np.argsort(dref, kind="stable")
-            dgot = np.sort(np.abs(W - sigma))
-            tsel = np.max(tol_ref[order[:k + 1]])
+            dgot = np.abs(W - sigma)
+            far = int(np.argmax(dgot))
+            taken = np.zeros(len(lam_ref), dtype=bool)
+            taken[m] = True
+            closer = np.where(~taken & (dref < dgot[far] - (tol_ref + tol_ref[m][far])))[0]
             cnt("selections_checked")
-            # margin between the last wanted and the first unwanted eigenvalue (evidence: selection was decidable)
-            if len(order) > k and dref[order[k]] - dref[order[k - 1]] > 2 * tsel:
+            missed_copy, wrong = [], []
+            for j in closer:
+                twin = np.abs(lam_ref[m] - lam_ref[j]) <= tol_ref[m] + tol_ref[j]
+                (missed_copy if np.any(twin) else wrong).append(int(j))
+            if missed_copy:
+                cnt("selections_where_a_copy_of_a_multiple_eigenvalue_was_missed")
+                obs["missed_copy_of"] = float(np.real(lam_ref[missed_copy[0]]))
+            order = np.argsort(dref, kind="stable")
+            if not closer.size and len(order) > k and \
+                    dref[order[k]] - dref[order[k - 1]] > 2 * np.max(tol_ref[order[:k + 1]]):
                 cnt("selections_with_clear_cut")
-            if np.any(np.abs(dgot - dref[order[:k]]) > tsel):
-                i = int(np.argmax(np.abs(dgot - dref[order[:k]])))
+            if wrong:
+                j = wrong[int(np.argmin(dref[wrong]))]
                 fails.append(("sparse/not-the-eigenvalues-closest-to-the-shift",
-                              {"sigma": sigma, "rank": i, "distance_returned": float(dgot[i]),
-                               "distance_of_closest": float(dref[order[i]]), "returned": W,
-                               "closest": lam_ref[order[:k]], "tolerance": float(tsel)}))
+                              {"sigma": sigma, "omitted_eigenvalue": lam_ref[j], "its_distance": float(dref[j]),
+                               "farthest_returned": W[far], "its_distance_": float(dgot[far]),
+                               "returned": W, "closest": lam_ref[order[:k]], "tolerance": float(tol_ref[j])}))
     return fails, obs
